@@ -70,10 +70,14 @@ class TlcResult:
     def tagged(self, tag):
         """lines printed by PrintT(<<"tag", ...>>), parsed loosely into python lists"""
         res = []
-        pref = '<<"%s"' % tag
+        pref = '"%s [' % tag
         for ln in self.lines:
             if ln.startswith(pref):
-                res.append(parse_tla_tuple(ln))
+                try:
+                    inner = json.loads(ln)
+                    res.append([tag] + json.loads(inner[len(tag) + 1:]))
+                except Exception:
+                    raise ToolError("unparsable %s line from TLC: %r" % (tag, ln[:200]))
         return res
 
 
@@ -195,6 +199,11 @@ def match_known(known, prop, clause, ctxinfo):
             continue
         ok = True
         for key, want in k.get("where", {}).items():
+            if key.endswith("_json"):
+                ok = json.dumps(ctxinfo.get(key[:-5]), sort_keys=True) == want
+                if not ok:
+                    break
+                continue
             have = ctxinfo.get(key)
             if isinstance(want, list):
                 ok = have in want
